@@ -715,6 +715,162 @@ fn run_outbound(order: &[usize], sizes: &[usize], seed: u64) -> Option<OutObs> {
     })
 }
 
+// ------------------------------------------------------------------ outbound part 2: final flight vs application data
+
+/// What happens to the server's final flight (ChangeCipherSpec + Finished) / the client's.
+#[derive(Clone, Copy, Debug, PartialEq, Eq)]
+enum FfFault {
+    /// the server's whole final flight is lost once (the client's timer re-sends its Finished)
+    LoseServerFlight,
+    /// only the server's Finished record's datagram is lost once, its ChangeCipherSpec arrives
+    LoseServerFinished,
+    /// nothing is lost; the client's final flight is delivered a second time later (a duplicate)
+    DupClientFlightLate,
+    /// the server's final flight is lost twice
+    LoseServerFlightTwice,
+}
+const FF_FAULTS: [FfFault; 4] = [FfFault::LoseServerFlight, FfFault::LoseServerFinished, FfFault::DupClientFlightLate, FfFault::LoseServerFlightTwice];
+
+/// The server becomes Connected, its application sends `sizes` at once, THEN the client's repeated
+/// Finished arrives and the server re-sends its final flight. Every protected record either side
+/// ever emitted must have a unique (epoch, sequence number), carry it as explicit nonce and
+/// authenticate under that side's write key.
+fn run_final_flight(fault: FfFault, sizes: &[usize], seed: u64) -> Option<OutObs> {
+    let sizes = sizes.to_vec();
+    sim::run_with_watchdog(seed, Duration::from_secs(30), move || {
+        Box::pin(async move {
+            let (net_tx, mut net_rx) = tokio::sync::mpsc::unbounded_channel();
+            let certs = sim::certs();
+            let rtc = sim::default_rtc();
+            let cfg_a = EndCfg { with_sctp: false, channels: vec![], expected_fingerprint: None, rtc: rtc.clone() };
+            let cfg_b = EndCfg { with_sctp: false, channels: vec![], expected_fingerprint: None, rtc };
+            let mut a = sim::mk_end(Side::A, certs.a.clone(), net_tx.clone(), &cfg_a).await;
+            let mut b = sim::mk_end(Side::B, certs.b.clone(), net_tx.clone(), &cfg_b).await;
+            drop(net_tx);
+            let mut buf = Vec::new();
+            let mut o = OutObs::default();
+            let mut all: Vec<Dgram> = vec![];
+            let mut losses_left = match fault {
+                FfFault::LoseServerFlight | FfFault::LoseServerFinished => 1,
+                FfFault::LoseServerFlightTwice => 2,
+                FfFault::DupClientFlightLate => 0,
+            };
+            let mut flight_seen_once = false;
+            let mut client_flight: Vec<Dgram> = vec![];
+            let mut b_sent = false;
+            let mut dup_done = false;
+            let mut faults_applied = 0usize;
+            let mut idle = 0;
+            for _ in 0..400 {
+                tokio::time::sleep(Duration::from_millis(1)).await;
+                // the server's application sends as soon as the server is Connected
+                if !b_sent && sim::crypto_of(&b).is_some() {
+                    b_sent = true;
+                    for (i, sz) in sizes.iter().enumerate() {
+                        let p: Vec<u8> = (0..*sz).map(|k| (k as u8).wrapping_mul(3).wrapping_add(i as u8 * 41 + 7)).collect();
+                        let _ = b.dtls.send(Bytes::from(p)).await;
+                    }
+                }
+                match sim::next_dgram(&mut net_rx, Duration::from_millis(100)).await {
+                    Some(d) => {
+                        idle = 0;
+                        all.push(d.clone());
+                        let recs = wire::dtls_records(&d.data);
+                        let from_b = d.src_side() == Some(Side::B);
+                        let is_ccs = recs.iter().any(|r| r.ctype == 20);
+                        let is_prot_hs = recs.iter().any(|r| r.ctype == 22 && r.epoch >= 1);
+                        if from_b && (is_ccs || is_prot_hs) && losses_left > 0 {
+                            let lose = match fault {
+                                FfFault::LoseServerFinished => is_prot_hs && !is_ccs,
+                                _ => true,
+                            };
+                            if lose {
+                                faults_applied += 1;
+                                // a flight is counted lost when its last datagram (the Finished) went
+                                if is_prot_hs {
+                                    losses_left -= 1;
+                                }
+                                continue;
+                            }
+                        }
+                        if !from_b && (is_ccs || is_prot_hs || recs.iter().any(|r| r.ctype == 22 && r.epoch == 0 && wire::handshake_msgs(&r.body).iter().any(|h| h.msg_type == 16))) && !flight_seen_once {
+                            client_flight.push(d.clone());
+                        }
+                        if from_b && is_prot_hs {
+                            flight_seen_once = true;
+                        }
+                        sim::deliver(&a, &b, &d, &mut buf).await;
+                    }
+                    None => {
+                        idle += 1;
+                        if fault == FfFault::DupClientFlightLate && b_sent && !dup_done {
+                            dup_done = true;
+                            faults_applied += 1;
+                            for d in client_flight.clone() {
+                                sim::deliver(&a, &b, &d, &mut buf).await;
+                            }
+                            idle = 0;
+                            continue;
+                        }
+                        if idle >= 25 && sim::crypto_of(&a).is_some() && sim::crypto_of(&b).is_some() {
+                            break;
+                        }
+                        if idle >= 60 {
+                            break;
+                        }
+                    }
+                }
+            }
+            if faults_applied == 0 {
+                o.problems.push(("final_flight_fault_not_applied".into(), format!("{fault:?}")));
+            }
+            let (Some(ca), Some(_cb)) = (sim::crypto_of(&a), sim::crypto_of(&b)) else {
+                o.problems.push(("handshake_did_not_converge_after_final_flight_fault".into(), format!("{fault:?}: A {} B {}", sim::state_name(&a.dtls.get_state()), sim::state_name(&b.dtls.get_state()))));
+                return o;
+            };
+            // A answers, so that both directions carry application data after the re-sent flights
+            let _ = a.dtls.send(Bytes::from_static(b"from-A-after-convergence")).await;
+            while let Some(d) = sim::next_dgram(&mut net_rx, Duration::from_millis(50)).await {
+                all.push(d.clone());
+                sim::deliver(&a, &b, &d, &mut buf).await;
+            }
+            for side in [Side::A, Side::B] {
+                let (cipher, iv) = if side == Side::A { (&ca.client_write_cipher, &ca.keys.client_write_iv) } else { (&ca.server_write_cipher, &ca.keys.server_write_iv) };
+                let mut seen: std::collections::BTreeMap<(u16, u64), Vec<u8>> = Default::default();
+                for d in all.iter().filter(|d| d.src_side() == Some(side)) {
+                    for r in wire::dtls_records(&d.data) {
+                        if r.epoch == 0 {
+                            if r.ctype == 23 || r.ctype == 21 {
+                                o.problems.push(("cleartext_or_wrong_type_record".into(), format!("{} sent type {} in epoch 0", side.name(), r.ctype)));
+                            }
+                            continue;
+                        }
+                        o.records += 1;
+                        match seen.get(&(r.epoch, r.seq)) {
+                            // a byte-identical re-send of the same record is a retransmission, not a reuse
+                            Some(prev) if *prev == r.body => {}
+                            Some(_) => o.problems.push(("sequence_number_reused".into(), format!("{}: two different records (one of type {}) under epoch {} seq {} after {fault:?}", side.name(), r.ctype, r.epoch, r.seq))),
+                            None => {
+                                seen.insert((r.epoch, r.seq), r.body.clone());
+                            }
+                        }
+                        if r.body.len() >= 8 && r.body[..8] != (((r.epoch as u64) << 48) | r.seq).to_be_bytes() {
+                            o.problems.push(("explicit_nonce_differs_from_sequence".into(), format!("{} type {}", side.name(), r.ctype)));
+                        }
+                        if wire::dtls_open(cipher, iv, r.ctype, r.epoch, r.seq, &r.body).is_none() {
+                            o.problems.push(("record_does_not_authenticate".into(), format!("{} type {} epoch {} seq {}", side.name(), r.ctype, r.epoch, r.seq)));
+                        }
+                    }
+                }
+            }
+            for h in a.tasks.drain(..).chain(b.tasks.drain(..)) {
+                h.abort();
+            }
+            o
+        })
+    })
+}
+
 fn permutations(n: usize) -> Vec<Vec<usize>> {
     if n == 1 {
         return vec![vec![0]];
@@ -741,6 +897,13 @@ fn main() {
             let order: Vec<usize> = r["order"].as_array().unwrap().iter().map(|x| x.as_u64().unwrap() as usize).collect();
             let sizes: Vec<usize> = r["sizes"].as_array().unwrap().iter().map(|x| x.as_u64().unwrap() as usize).collect();
             let o = run_outbound(&order, &sizes, cli.seed);
+            println!("{o:?}");
+            std::process::exit(if o.map_or(true, |o| !o.problems.is_empty()) { 1 } else { 0 });
+        }
+        if r["kind"] == "final-flight" {
+            let f = FF_FAULTS.iter().copied().find(|f| format!("{f:?}") == r["fault"].as_str().unwrap_or("")).unwrap_or_else(|| vh::machinery_failure("bad fault"));
+            let sizes: Vec<usize> = r["sizes"].as_array().unwrap().iter().map(|x| x.as_u64().unwrap() as usize).collect();
+            let o = run_final_flight(f, &sizes, cli.seed);
             println!("{o:?}");
             std::process::exit(if o.map_or(true, |o| !o.problems.is_empty()) { 1 } else { 0 });
         }
@@ -917,7 +1080,30 @@ fn main() {
             rep.violation(vh::Violation { signature: format!("outbound;{k};senders={}", order.len()), detail: format!("{k}: {d} (sizes {sizes:?}, start order {order:?})"), replay: json!({"kind": "outbound", "order": order, "sizes": sizes}) });
         }
     }
-    let total = scenarios.len() as u64 + out_cases.len() as u64;
+    // final flight vs application data
+    let ff_sizes: Vec<Vec<usize>> = if thorough { vec![vec![10], vec![10, 10], vec![1300], vec![2500, 10], vec![0, 5], vec![10, 10, 10]] } else { vec![vec![10], vec![10, 10], vec![1300]] };
+    let ff_cases: Vec<(FfFault, Vec<usize>)> = FF_FAULTS.iter().flat_map(|f| ff_sizes.iter().map(move |s| (*f, s.clone()))).collect();
+    let ff_results: Vec<((FfFault, Vec<usize>), Option<OutObs>)> = ff_cases.par_iter().map(|c| (c.clone(), run_final_flight(c.0, &c.1, seed))).collect();
+    let mut ff_records = 0usize;
+    for ((f, sizes), o) in &ff_results {
+        let Some(o) = o else {
+            vh::machinery_failure("watchdog fired in final-flight case");
+        };
+        ff_records += o.records;
+        for (k, d) in &o.problems {
+            if k == "final_flight_fault_not_applied" {
+                vh::machinery_failure(&format!("final-flight fault {f:?} never applied"));
+            }
+            rep.violation(vh::Violation { signature: format!("outbound;{k};final-flight={f:?}"), detail: format!("{k}: {d} (server application sends {sizes:?} as soon as it is Connected)"), replay: json!({"kind": "final-flight", "fault": format!("{f:?}"), "sizes": sizes}) });
+        }
+    }
+    if ff_records < ff_cases.len() * 4 {
+        vh::machinery_failure("final-flight family is vacuous: too few protected records seen");
+    }
+    rep.set("final_flight_histories", ff_cases.len() as u64);
+    rep.set("final_flight_protected_records_checked", ff_records as u64);
+    let out_records = out_records + ff_records;
+    let total = scenarios.len() as u64 + out_cases.len() as u64 + ff_cases.len() as u64;
     rep.set("states", total);
     rep.set("transitions", scenarios.iter().map(|s| s.inj.len() as u64).sum::<u64>() + out_records as u64);
     rep.set("traces_validated_against_impl", total);
@@ -937,7 +1123,7 @@ fn main() {
     rep.set("outbound_records_checked", out_records as u64);
     rep.set("genuine_record_len", glen as u64);
     rep.set("exhaustive", true);
-    rep.set("rule", "inbound: every (stage in {every quiescent datagram boundary of the handshake at which the victim holds keys, both connected, after traffic, after close_notify}) x (victim A|B) x (record of the catalog: content types {20,21,22,23,24,255} x epochs {0,1,2} x 4 payloads x 2 source addresses; every single-bit flip, every truncation, re-addressing, epoch rewrite of a genuine application record, the victim's own record reflected; every single-bit flip of each handshake datagram about to be delivered to a key-holding endpoint) injected once (thorough: also pairs); each history executed on two real DtlsTransports and compared with the injection-free run: only payloads the peer sent to that side delivered and not one delivery more than without the injection (except for an unmodified replay), same final states AND same state history at every quiescent point, genuine traffic still delivered. outbound: every start order of 1..3 (thorough: 1..4) concurrent send() tasks x payload sizes {0,1,1200,1201,2400,3000}; every emitted datagram must be exactly one type-23 record with epoch>=1, <=1237 bytes, authenticating under the session keys, unique (epoch,seq), and the plaintexts must reassemble the submitted payloads. distinct_nontrivial = distinct (states, delivery counts, verdict count) outcomes");
+    rep.set("rule", "inbound: every (stage in {every quiescent datagram boundary of the handshake at which the victim holds keys, both connected, after traffic, after close_notify}) x (victim A|B) x (record of the catalog: content types {20,21,22,23,24,255} x epochs {0,1,2} x 4 payloads x 2 source addresses; well-formed handshake messages in cleartext records: 10 message types x message_seq 0..8 x empty / plausible body; every single-bit flip, every truncation, re-addressing, epoch rewrite of a genuine application record, the victim's own record reflected; every single-bit flip of each handshake datagram about to be delivered to a key-holding endpoint) injected once (thorough: also pairs); each history executed on two real DtlsTransports and compared with the injection-free run: only payloads the peer sent to that side delivered and not one delivery more than without the injection (except for an unmodified replay), same final states AND same state history at every quiescent point, genuine traffic still delivered. outbound: every start order of 1..3 (thorough: 1..4) concurrent send() tasks x payload sizes {0,1,1200,1201,2400,3000}; every emitted datagram must be exactly one type-23 record with epoch>=1, <=1237 bytes, authenticating under the session keys, unique (epoch,seq), and the plaintexts must reassemble the submitted payloads. distinct_nontrivial = distinct (states, delivery counts, verdict count) outcomes");
     rep.assume("concurrent send() tasks run on the single-threaded deterministic runtime: interleavings are at await-point granularity (start orders); pre-emption inside send_record between OS threads is not explored (sequence allocation is a single fetch_add)");
     rep.assume("a genuine record replayed unmodified (also from another address) may be delivered again: the statement does not promise replay protection");
     if outcomes.len() < 2 && rep.violation_count() == 0 {
